@@ -55,9 +55,10 @@ func vUnstubTransforms() {
 	vUnstub(pfx + "INTTLazy")
 }
 
-
 // vStubMultSum is the contract of multSum (engine only; discharged on the real multSum by VerifH_C02_MultSumContract):
-//   res[l] ≡ Σ_i y_l[i]·(qoverqimodp[i]·2^-64) + vtimesqmodp[v[l]]  (mod q),   res[l] < 2^64 (no wrap).
+//
+//	res[l] ≡ Σ_i y_l[i]·(qoverqimodp[i]·2^-64) + vtimesqmodp[v[l]]  (mod q),   res[l] < 2^64 (no wrap).
+//
 // The representative returned is the reduced one plus an arbitrary multiple (0..3) of q: consumers may rely on the
 // congruence only (the real function documents [0, 2q-1], which does not hold for its vtimesqmodp term: values up to
 // 3q-2 occur; none of the callers depends on it).
@@ -81,7 +82,6 @@ func vStubMultSum(level int, res, rlo, rhi, v *[8]uint64, y0, y1, y2, y3, y4, y5
 	_ = bred
 	res[0] += (vU64("multsum.k") & 3) * q
 }
-
 
 // VerifGhostSum returns Σ_i y_i·(Q/q_i) for the words y_i = MRed(buf_i, (Q/q_i)^-1) a basis extension computes from
 // the residues in buf (coefficient 0), together with the source moduli: the argument of the CRT lift of the ghost.
